@@ -44,6 +44,8 @@ long long kv_n_protonly;  /* letters that occur only in proteins: D E F H I K L 
 #define K_NUC6(c) (K_UP(c)=='A'||K_UP(c)=='C'||K_UP(c)=='G'||K_UP(c)=='T'||K_UP(c)=='U'||K_UP(c)=='N')
 #define K_PROTONLY(c) (K_UP(c)=='D'||K_UP(c)=='E'||K_UP(c)=='F'||K_UP(c)=='H'||K_UP(c)=='I'||K_UP(c)=='K'||K_UP(c)=='L'||K_UP(c)=='M'||K_UP(c)=='P'||K_UP(c)=='Q'||K_UP(c)=='R'||K_UP(c)=='S'||K_UP(c)=='V'||K_UP(c)=='W'||K_UP(c)=='Y')
 
+/* letters of the protein model: the 20 amino acids and U (selenocysteine) */
+#define K_PROT21(c) (K_UP(c)=='A'||K_UP(c)=='C'||K_UP(c)=='D'||K_UP(c)=='E'||K_UP(c)=='F'||K_UP(c)=='G'||K_UP(c)=='H'||K_UP(c)=='I'||K_UP(c)=='K'||K_UP(c)=='L'||K_UP(c)=='M'||K_UP(c)=='N'||K_UP(c)=='P'||K_UP(c)=='Q'||K_UP(c)=='R'||K_UP(c)=='S'||K_UP(c)=='T'||K_UP(c)=='U'||K_UP(c)=='V'||K_UP(c)=='W'||K_UP(c)=='Y')
 #define K_POST_DETECT_NUC(ret,msa)  (!(kv_n_letters > 0 && kv_n_nuc == kv_n_letters) || ((ret) == OK && (msa)->biotype == ALN_BIOTYPE_DNA))
 #define K_POST_DETECT_PROT(ret,msa) (!(kv_n_letters > 0 && 4 * kv_n_protonly >= kv_n_letters) || ((ret) == OK && (msa)->biotype == ALN_BIOTYPE_PROTEIN))
 #endif
